@@ -98,8 +98,12 @@ def caused_by_recursion(exc: BaseException) -> bool:
 _ENVS: dict[Any, Environment] = {}
 
 
-def get_env(mode: str, limits: Optional[dict[str, int]] = None, comments: bool = False) -> Environment:
-    key = (mode, tuple(sorted((limits or {}).items())), comments)
+def get_env(mode: str, limits: Optional[dict[str, int]] = None, comments: bool = False,
+            purpose: str = "parse") -> Environment:
+    """One environment per configuration AND purpose: render cases swap ``env.loader`` for every case,
+    so they must never share an environment object with the parse families (whose skeletons render
+    `{% extends 'p' %}` / `{% include 'p' %}` against the fixed {"p": ...} loader)."""
+    key = (purpose, mode, tuple(sorted((limits or {}).items())), comments)
     env = _ENVS.get(key)
     if env is None:
         kw: dict[str, Any] = {}
@@ -391,7 +395,7 @@ def run_render_case(templates: dict[str, str], limits: dict[str, int], mode: str
                     loader_kind: str = "dict", start: str = "t0",
                     backstop_s: float = RENDER_BACKSTOP_S, fsdir: Optional[str] = None) -> dict[str, Any]:
     """Parse + render t0 on the case thread at a fixed frame depth; classify the outcome."""
-    env = get_env(mode, limits)
+    env = get_env(mode, limits, purpose="render")
     loader: Any
     if loader_kind in ("fs", "cachingfs"):
         # real files: a template's ``path`` is then <search path>/<name>, not the name written in the tag
